@@ -6,7 +6,7 @@ from .. import spell
 
 LEVEL = 'proof'
 TRUSTED = ['Lean 4 kernel; axioms propext, Classical.choice, Quot.sound only',
-           'the quote! glue of microscpi-macros/src/lib.rs (id <-> handler mapping, emission of the statics) is validated on the generated interfaces (24) of each run (TREE op), not modelled token by token',
+           'the quote! glue of microscpi-macros/src/lib.rs (id <-> handler mapping, emission of the statics) is validated on the generated interfaces (25) of each run (TREE op), not modelled token by token',
            'HashMap in the macro: only its map semantics', 'ASCII declarations (char::is_lowercase / to_uppercase re-stated for ASCII)',
            'correspondence harness + driver (differential testing; covers only generated cases)']
 RULE = ('TREE of every generated interface (real macro expansion vs model); MACRO on seeded random declaration sets (real command.rs/tree.rs '
